@@ -73,6 +73,24 @@ func TestC14(t *testing.T) {
 				Ops:  []string{"new", "start", "client", "dispense", "set:5", "sleep:12000", "get", "ping", "callback", "dispense", "get", "kill"}}, exp{kind: "ok"})
 		}
 	}
+	// one host process, two plugins at once (one Client per plugin, as documented): the first pair keeps working end to end
+	// after the second was started, including connections that need a fresh handshake (brokered connections, a first
+	// Client() call that comes after the other plugin's Start)
+	for _, proto := range []string{"netrpc", "grpc"} {
+		for _, htls := range []string{"none", "auto"} {
+			for _, mux := range []bool{false, true} {
+				if mux && proto != "grpc" {
+					continue
+				}
+				pc := PluginConf{CookieKey: cookieKey, CookieValue: cookieVal, Legacy: 1, LegacyProto: proto, GRPCServer: true, TLS: "none"}
+				hc := HostConf{Allowed: []string{"netrpc", "grpc"}, TLS: htls, Mux: mux, Launch: "cmd", Legacy: 1}
+				add(Cell{Name: fmt.Sprintf("two plugins at once plugin{%s} host{tls=%s,mux=%v}: first used after the second connected", proto, htls, mux), Plugin: pc, Host: hc,
+					Ops: []string{"new", "start", "client", "dispense", "set:5", "new", "start", "client", "dispense", "set:6", "get:@0", "callback:@0", "revcallback:@0", "ping", "dispense:@0", "get:@0", "callback:@1", "get:@1", "kill:1", "get:@0", "callback:@0", "kill:0"}}, exp{kind: "ok"})
+				add(Cell{Name: fmt.Sprintf("two plugins at once plugin{%s} host{tls=%s,mux=%v}: both started before either connects", proto, htls, mux), Plugin: pc, Host: hc,
+					Ops: []string{"new", "start", "new", "start", "client:@0", "dispense:@0", "set:5@0", "client:@1", "dispense:@1", "set:6@1", "get:@0", "callback:@0", "callback:@1", "get:@1", "kill:0", "get:@1", "kill:1"}}, exp{kind: "ok"})
+			}
+		}
+	}
 	// multiplexing requested from a plugin that does not advertise it
 	// (every shape a plugin that knows nothing about multiplexing may print: 5 fields as non-Go plugins do,
 	// an empty or absent certificate field, an explicit false; an unparsable flag is a different error)
@@ -133,12 +151,15 @@ func TestC14(t *testing.T) {
 				if o.Op == "get" && o.Val != "5" && o.Val != "9" {
 					bad("S", "store read back %s", o.Val)
 				}
+				if (o.Op == "get:@0" && o.Val != "5") || (o.Op == "get:@1" && o.Val != "6") {
+					bad("S", "%s read back %s (plugin 0 holds 5, plugin 1 holds 6)", o.Op, o.Val)
+				}
 				if strings.HasPrefix(o.Op, "big") && o.Val != "5000000" {
 					bad("S", "large response truncated: %s bytes", o.Val)
 				}
 				// never a silently downgraded connection: a brokered gRPC connection carries the transport security
 				// of the session it belongs to (observed by the host: as server for callback, as client for revcallback)
-				if (o.Op == "callback" || o.Op == "revcallback") && c.Plugin.LegacyProto == "grpc" && c.Host.TLS != "none" && o.Val != "tls" {
+				if (o.Op == "callback" || o.Op == "revcallback" || strings.HasPrefix(o.Op, "callback:") || strings.HasPrefix(o.Op, "revcallback:")) && c.Plugin.LegacyProto == "grpc" && c.Host.TLS != "none" && o.Val != "tls" {
 					bad("S", "the brokered connection of %s has transport security %q although the session uses TLS (%s)", o.Op, o.Val, c.Host.TLS)
 				}
 			}
